@@ -316,6 +316,24 @@ LoadInto(rows, g2) ==
        /\ gen' = g2 /\ UNCHANGED <<used, pk>>          \* (creating the rows draws default ids, as a build does)
        /\ res' = "none"
 
+(* Association.batch_relate: every referring instance is connected to every        *)
+(* instance whose identifying values equal the values it reads (a referential      *)
+(* value is read through the first existing link): the join of one association is  *)
+(* closed, nothing is removed, no multiplicity is checked.                         *)
+BatchRelate(a) ==
+    /\ fwd' = [fwd EXCEPT ![a] = [t \in Ord |->
+                   IF InSeq(t, pool[Tgt(a)])
+                   THEN fwd[a][t] \o SelectSeq(pool[Src(a)], LAMBDA s :
+                            ~InSeq(s, fwd[a][t]) /\ Matches(a, RowOfInst(Src(a), s), RowOfInst(Tgt(a), t)))
+                   ELSE fwd[a][t]]]
+    /\ bwd' = [bwd EXCEPT ![a] = [s \in Ord |->
+                   IF InSeq(s, pool[Src(a)])
+                   THEN bwd[a][s] \o SelectSeq(pool[Tgt(a)], LAMBDA t :
+                            ~InSeq(t, bwd[a][s]) /\ Matches(a, RowOfInst(Src(a), s), RowOfInst(Tgt(a), t)))
+                   ELSE bwd[a][s]]]
+    /\ UNCHANGED <<pool, born, val, gen, used, pk>>
+    /\ res' = "none"
+
 (* Creating a row through the API with referential values (MetaClass.new with     *)
 (* referential arguments, MetaModel.clone): the instance gets its non-referential *)
 (* values and is related to every existing referred instance whose identifying   *)
